@@ -7,7 +7,7 @@ import lib
 MODULES = {
     "C01": "p_check", "C02": "p_check", "C03": "p_check", "C15": "p_check",
     "C04": "p_store", "C06": "p_store", "C17": "p_store",
-    "C07": "p_pager", "C05": "p_atomic", "C09": "p_expand", "C08": "p_api", "C13": "p_fuzz", "C12": "p_opl", "C16": "p_names", "C18": "p_codec", "C19": "p_reload", "C10": "p_opl", "C11": "p_opl",
+    "C07": "p_pager", "C05": "p_atomic", "C09": "p_expand", "C08": "p_api", "C13": "p_fuzz", "C12": "p_opl", "C16": "p_names", "C18": "p_codec", "C19": "p_reload", "C14": "p_conc", "C10": "p_opl", "C11": "p_opl",
 }
 
 def main():
